@@ -151,6 +151,21 @@ CHECKS = {
         "outside": "goroutine interleavings and the race detector (not explored: replaced by the no-shared-write query plus the memory-model argument); VariableValues, ArgumentMap and FormatSchema (no harness yet); a store that writes back an identical value is reported by the engine but cannot be confirmed natively and makes the check undecided rather than a violation",
         "assumptions": VALIDATE_ASSUME + ["natively the schema is dumped (ast.Dump of every type and directive, relation entries) before and after and compared"],
     },
+    "C20": {
+        "units": [
+            {"pkg": "verifh/hlex", "fn": "StepTotal", "cases": lex_cases(4, 6), "panic_prop": None},
+            {"pkg": "verifh/hparse", "fn": "QueryTotal", "cases": stream_cases(NQ_PREFIX, NQ_ALPHA, 3, 2, 4, 3, {"invalid": 1}), "panic_prop": None},
+            {"pkg": "verifh/hparse", "fn": "SchemaTotal", "cases": stream_cases(NS_PREFIX, NS_ALPHA, 3, 2, 4, 3, {"invalid": 1}), "panic_prop": None},
+            {"pkg": "verifh/hval", "fn": "ValidateRef", "cases": validate_cases, "panic_prop": None},
+        ],
+        "covers": ["C20.lexer-error", "C20.syntax-error", "C20.token-limit-error", "C20.validation-error"],
+        "case_timeout": {"quick": 400, "thorough": 1200},
+        "level_text": "Every error the lexer, both parsers (with and without a token limit) and the validator produce on the symbolic inputs of C01/C08 passes through well-formedness assertions decided on the same symbolic runs: non-empty message, exactly one location for syntax errors and at least one with positive line and column for validation errors, a rule name on validation errors, the source's file name in the extensions, a non-empty Error() string; an unlocated error arises only from the token limit.",
+        "bounds": {"quick": "lexer errors: <= 4 bytes after the cursor; syntax errors: streams <= 3 tokens (2 after an opening) with any token limit; validation errors: the 68 pieces of the C08 document shapes",
+                   "thorough": "lexer <= 6 bytes; streams <= 4 tokens (3 after an opening); all validator pieces"},
+        "outside": "errors of schema loading and of variable coercion (no harness yet); the constructors called directly with arbitrary arguments; NOT APPLICABLE to this technique: the JSON encoding of errors and the JSON round trip of error paths (encoding/json's reflection-driven codec is the deciding code, DESIGN section 6)",
+        "assumptions": LEX_ASSUME[:1] + PARSE_ASSUME[:2] + VALIDATE_ASSUME[:1] + ["fmt.Sprintf/Errorf are modelled (literal parts verbatim, %s/%d spliced); message non-emptiness follows from the literal parts"],
+    },
     "C03": {
         "units": [
             {"pkg": "verifh/hlex", "fn": "StepRef", "cases": lex_cases(5, 7), "panic_prop": "C03"},
